@@ -289,6 +289,40 @@ func runC08(c *fw.Ctx) {
 		}
 	}
 
+	// (i') chains of 2..4 nested includes whose file names are as similar as names can be without
+	// being the same: letter case, a longer name with the shorter as its prefix, the same base name in
+	// a sub-directory - every file is a different file
+	for _, names := range [][]string{
+		{"Part.jst", "part.jst", "leaf.jst"}, {"part.jst", "PART.JST", "Part.jst", "leaf.jst"}, {"a.jst", "a.jst.jst", "aa.jst"},
+		{"sub/x.jst", "x.jst", "Sub/x.jst"}, {"x.jst", "sub/x.jst", "sub/sub/x.jst"},
+	} {
+		files := map[string]string{}
+		unsplit := "JSIGHT 0.3\nTYPE @r any\n"
+		prev := "root.jst"
+		files[prev] = "JSIGHT 0.3\nTYPE @r any\n"
+		for i, n := range names {
+			// an INCLUDE names its file relative to the including file's directory
+			rel := n
+			if d := filepath.Dir(prev); d != "." && strings.HasPrefix(n, d+"/") {
+				rel = strings.TrimPrefix(n, d+"/")
+			} else if d != "." {
+				rel = ""
+			}
+			if rel == "" {
+				files = nil
+				break
+			}
+			files[prev] += "INCLUDE " + rel + "\n"
+			files[n] = fmt.Sprintf("TYPE @n%d any\n", i)
+			unsplit += fmt.Sprintf("TYPE @n%d any\n", i)
+			prev = n
+		}
+		if files == nil {
+			continue
+		}
+		compareSplit("similar names nested "+strings.Join(names, " > "), unsplit, drv.Project{Root: "root.jst", Files: files})
+	}
+
 	// (ii) file names
 	maxLen := 6
 	if !c.Quick() {
